@@ -16,6 +16,8 @@ notes = {
  'untrashStrings': "prefix used by Untrash",
  'emptyTrashConds': "EmptyTrash: no-op when BlobDeleteConcurrency < 1; keeps entries with deadline > Now().Unix() (Vol.emptyTrash)",
  'emptyTrashCalls': "EmptyTrash removes only paths matching unixTrashLocRegexp",
+ 'lockfileText': "lockfile = flock(2) LOCK_EX on the open descriptor: a lock per open file description, so two goroutines of one keepstore that opened the same file exclude each other (the per-inode mutex of Model/C04_Race.lean); fcntl/POSIX locks are per process and would not",
+ 'unlockfileText': "unlockfile = flock(2) LOCK_UN",
  'trashLocRe': "only <32 hex>.trash.<digits> names are trash entries; a block file name never matches",
  'mtimeCalls': "Mtime = Stat by path (Race.stepT iMtime)",
  'getFuncSkeleton': "getFunc (Compare/Get): Serialize lock, Open, read (Race.stepP cLock, cOpen, cRead)",
